@@ -241,6 +241,19 @@ def step (w : World) (toks : List String) : World × String :=
           ({ w with st := some s', blocks := blocks' }, "ok " ++ observe p s')
         | .error e => (w, e)
       | _, _, _ => (w, "bad-op")
+    | "prefill", [n], some s =>
+      match n.toNat? with
+      | some n =>
+        -- dummy entries: only the number of entries (header height) matters; existing entries are kept
+        let dummy : Hash := 0xff :: List.replicate 31 0
+        let m := s.mem
+        let s' : State := { s with mem := { m with
+          headerIndex := fun i => match m.headerIndex i with
+            | some h => some h
+            | none => if m.headerCount ≤ i ∧ i < n then some dummy else none,
+          headerCount := max m.headerCount n } }
+        ({ w with st := some s' }, "ok " ++ observe p s')
+      | none => (w, "bad-op")
     | "obs", [], some s => (w, observe p s)
     | "obs", [], none => (w, "closed:" ++ w.dead.getD "")
     | "reopen", [], some s =>
